@@ -96,6 +96,16 @@ static void obs_client(int k) {
         for (j = 0; j < h; j++) for (i = 0; i < w; i++)
           memcpy(pics[k] + ((size_t)(y + j) * W + x + i) * BPP, b->p + o + 12 + ((size_t)j * w + i) * BPP, BPP);
         o += 12 + need;
+      } else if (enc == rfbEncodingCopyRect) {
+        unsigned sx_, sy_, j; char *tmp;
+        if (b->n - o < 16) { printf(" | %d: TRUNCATED", k); return; }
+        sx_ = vs_get16(b->p + o + 12); sy_ = vs_get16(b->p + o + 14);
+        if (x + w > (unsigned)W || y + h > (unsigned)H || sx_ + w > (unsigned)W || sy_ + h > (unsigned)H) { printf(" | %d: BADCOPY %u,%u,%u,%u<-%u,%u", k, x, y, w, h, sx_, sy_); return; }
+        tmp = (char *)malloc((size_t)w * h * BPP + 1);
+        for (j = 0; j < h; j++) memcpy(tmp + (size_t)j * w * BPP, pics[k] + ((size_t)(sy_ + j) * W + sx_) * BPP, (size_t)w * BPP);
+        for (j = 0; j < h; j++) memcpy(pics[k] + ((size_t)(y + j) * W + x) * BPP, tmp + (size_t)j * w * BPP, (size_t)w * BPP);
+        free(tmp);
+        o += 16;
       } else if (enc == rfbEncodingXCursor || enc == rfbEncodingRichCursor) {
         size_t rb = (w + 7) / 8, len = 12, extra = 0, i;
         if (w * h) len += (enc == rfbEncodingXCursor ? 6 + rb * h : (size_t)w * h * BPP) + rb * h;
@@ -139,6 +149,7 @@ static void send_encodings(int k, char *rest) {
     if (!strcmp(t, "x")) encs[n++] = rfbEncodingXCursor;
     else if (!strcmp(t, "rich")) encs[n++] = rfbEncodingRichCursor;
     else if (!strcmp(t, "pos")) encs[n++] = rfbEncodingPointerPos;
+    else if (!strcmp(t, "copyrect")) encs[n++] = rfbEncodingCopyRect;
   }
   vs_send_set_encodings(peers[k], n, encs);
 }
@@ -332,6 +343,12 @@ int main(void) {
       for (y = a[1]; y < a[3]; y++) for (x = a[0]; x < a[2]; x++) setpix(scr->frameBuffer, x, y, v);
       rfbMarkRectAsModified(scr, a[0], a[1], a[2], a[3]);
       pump_obs("fill");
+    }
+    else if (!strcmp(op, "copy")) {
+      /* copy x1 y1 x2 y2 dx dy: rfbDoCopyRect - pixels moved inside the framebuffer, CopyRect scheduled for the
+       * clients that take it (cases with this op are checked by the picture oracle only) */
+      rfbDoCopyRect(scr, a[0], a[1], a[2], a[3], a[4], a[5]);
+      pump_obs("copy");
     }
     else if (!strcmp(op, "newfb")) {
       /* newfb <bitsPerSample> <pixels>: rfbNewFramebuffer with the same size and pixel size; every client
